@@ -3,4 +3,4 @@ import ShootVerif.Drive.Cli
 import ShootVerif.Drive.Phases
 import ShootVerif.Drive.Fs
 open ShootVerif.Drive
-def main : IO Unit := runDriver [("cli16", cli16Case), ("cli18", cli18Case), ("fs17", fs17Case), ("clean17", clean17Case), ("dirline", dirlineCase)]
+def main : IO Unit := runDriver [("cli16", cli16Case), ("cli18", cli18Case), ("fs17", fs17Case), ("clean17", clean17Case), ("glob17", glob17Case), ("dirline", dirlineCase)]
